@@ -8,8 +8,10 @@
          reentrant: Lock under Lock/RLock and RLock under Lock block forever;
          RLock under RLock blocks as soon as a writer is waiting),
       2  unlocks what it does not hold,
-      3  reads a field of the receiver while holding nothing,
-      4  writes a field of the receiver without the write lock,
+      3  reads shared state (table, list links and nodes - also through
+         local aliases of type *node -, cap, stats, the wrapped cache)
+         while holding nothing,
+      4  writes shared state without the write lock,
       5  opens a second critical section,
       6  changes the lock state inside a loop body. *)
 From Coq Require Import ZArith List Bool.
@@ -21,26 +23,28 @@ Inductive held := HFree | HW | HR.
 Definition held_eqb (a b : held) : bool :=
   match a, b with HFree, HFree | HW, HW | HR, HR => true | _, _ => false end.
 
-Record ctx := mkctx { hd : held; defers : list lev; sections : nat }.
-Definition ctx0 := mkctx HFree [] 0.
-Definition ctxW := mkctx HW [] 1.     (* called with the write lock held *)
+(** [accs]: every access met so far on the path: field, write?, lock state. *)
+Definition access : Type := fld * bool * held.
+Record ctx := mkctx { hd : held; defers : list lev; sections : nat; accs : list access }.
+Definition ctx0 := mkctx HFree [] 0 [].
+Definition ctxW := mkctx HW [] 1 [].     (* called with the write lock held *)
 
 Inductive pres := PFail (why : Z) | PCont (c : ctx) | PRet (c : ctx).
 
 Definition acquire (m : held) (c : ctx) : pres :=
   match hd c with
   | HFree => match sections c with
-             | O => PCont (mkctx m (defers c) 1)
+             | O => PCont (mkctx m (defers c) 1 (accs c))
              | _ => PFail 5
              end
   | _ => PFail 1
   end.
 Definition release (m : held) (c : ctx) : pres :=
-  if held_eqb (hd c) m then PCont (mkctx HFree (defers c) (sections c)) else PFail 2.
+  if held_eqb (hd c) m then PCont (mkctx HFree (defers c) (sections c) (accs c)) else PFail 2.
 
 Fixpoint run_defers (ds : list lev) (c : ctx) : pres :=
   match ds with
-  | [] => PRet (mkctx (hd c) [] (sections c))
+  | [] => PRet (mkctx (hd c) [] (sections c) (accs c))
   | d :: r =>
       match (match d with LDeferWUnlock => release HW c | LDeferRUnlock => release HR c | _ => PFail 2 end) with
       | PCont c' => run_defers r c'
@@ -55,10 +59,10 @@ Definition bindp (ps : list pres) (f : ctx -> list pres) : list pres :=
 Definition callee_done (caller_defers : list lev) (p : pres) : pres :=
   match p with
   | PCont c => match run_defers (defers c) c with
-               | PRet c' => PCont (mkctx (hd c') caller_defers (sections c'))
+               | PRet c' => PCont (mkctx (hd c') caller_defers (sections c') (accs c'))
                | x => x
                end
-  | PRet c => PCont (mkctx (hd c) caller_defers (sections c))
+  | PRet c => PCont (mkctx (hd c) caller_defers (sections c) (accs c))
   | x => x
   end.
 
@@ -73,19 +77,21 @@ Fixpoint run_ev (e : lev) (c : ctx) {struct e} : list pres :=
   | LRLock => [acquire HR c]
   | LWUnlock => [release HW c]
   | LRUnlock => [release HR c]
-  | LDeferWUnlock | LDeferRUnlock => [PCont (mkctx (hd c) (e :: defers c) (sections c))]
-  | LRead => [match hd c with HFree => PFail 3 | _ => PCont c end]
-  | LWrite => [match hd c with HW => PCont c | _ => PFail 4 end]
+  | LDeferWUnlock | LDeferRUnlock => [PCont (mkctx (hd c) (e :: defers c) (sections c) (accs c))]
+  | LRead f => [match hd c with HFree => PFail 3
+                            | h => PCont (mkctx h (defers c) (sections c) (accs c ++ [(f, false, h)])) end]
+  | LWrite f => [match hd c with HW => PCont (mkctx HW (defers c) (sections c) (accs c ++ [(f, true, HW)]))
+                             | _ => PFail 4 end]
   | LOuter => [PCont c]
   | LRet => [run_defers (defers c) c]
-  | LCall body => map (callee_done (defers c)) (run_list body (mkctx (hd c) [] (sections c)))
+  | LCall body => map (callee_done (defers c)) (run_list body (mkctx (hd c) [] (sections c) (accs c)))
   | LIf thn els => run_list thn c ++ run_list els c
   | LLoop cond body =>
       bindp (run_list cond c) (fun c1 =>
         PCont c1 ::
         map (fun p => match p with
                       | PCont c2 => if held_eqb (hd c2) (hd c1) && (length (defers c2) =? length (defers c1))%nat
-                                    then PCont c1 else PFail 6
+                                    then PCont c2 else PFail 6
                       | x => x end)
             (run_list body c1))
   end.
@@ -121,3 +127,37 @@ Definition relocks_under_w (l : list lev) : bool :=
 Definition lru_relock : bool := relocks_under_w c14_LRU_drop_locks.
 Definition fifo_relock : bool := relocks_under_w c14_FIFO_drop_locks.
 Definition random_relock : bool := relocks_under_w c14_Random_drop_locks.
+
+(** * What is accessed, and under which lock *)
+Definition fld_eqb (a b : fld) : bool :=
+  match a, b with
+  | FTable, FTable | FList, FList | FNode, FNode | FCap, FCap | FStats, FStats | FInner, FInner => true
+  | _, _ => false
+  end.
+
+(** an access is inside the critical section: under the write lock, or a
+    read under the read lock *)
+Definition access_inside (a : access) : bool :=
+  let '(_, w, h) := a in
+  match h with HW => true | HR => negb w | HFree => false end.
+
+(** every path of the method returns, and every access to shared state on it
+    (also through aliases, also inside inlined callees and helpers) is inside *)
+Definition sk_accesses_inside (l : list lev) : bool :=
+  forallb (fun p => match p with
+                    | PRet c => forallb access_inside (accs c)
+                    | _ => false end) (paths l ctx0).
+
+Definition sk_all_accesses (l : list lev) : list access :=
+  flat_map (fun p => match p with PRet c | PCont c => accs c | PFail _ => [] end) (paths l ctx0).
+
+(** the method touches shared state at all, only reads it, only under R / W *)
+Definition sk_is_reader (l : list lev) : bool :=
+  forallb (fun a => let '(_, w, h) := a in negb w && held_eqb h HR) (sk_all_accesses l)
+  && negb (match sk_all_accesses l with [] => true | _ => false end).
+Definition sk_is_writer (l : list lev) : bool :=
+  forallb (fun a => let '(_, _, h) := a in held_eqb h HW) (sk_all_accesses l)
+  && negb (match sk_all_accesses l with [] => true | _ => false end).
+
+Definition sk_fields_in (allowed : list fld) (l : list lev) : bool :=
+  forallb (fun a => let '(f, _, _) := a in existsb (fld_eqb f) allowed) (sk_all_accesses l).
